@@ -350,6 +350,44 @@ pub fn gen_graph_project(rng: &mut Rng, tier: Tier, ptr: usize) -> Project {
         }
     }
 
+    // A by-value cycle whose members all *declare* their layout (size plus packed/align): the
+    // numbers are mutually consistent, the structure is still impossible.
+    if rng.chance(1, 8) {
+        let len = rng.range(1, 3);
+        let size = ptr * rng.range(1, 4);
+        let first = p.items.len();
+        for k in 0..len {
+            let next = first + (k + 1) % len;
+            let idx = p.items.len();
+            let m = rng.below(cfg.modules);
+            let ty = match rng.below(3) {
+                0 => Ty::Item(next).arr(1),
+                _ => Ty::Item(next),
+            };
+            let use_align = rng.chance(1, 2);
+            p.items.push(Item {
+                module: m,
+                name: format!("T{idx}"),
+                vis: true,
+                doc: None,
+                kind: ItemKind::Type {
+                    fields: vec![crate::props::c09::field("inner", ty)],
+                    vftable: None,
+                    size: Some(size),
+                    align: use_align.then_some(ptr),
+                    packed: !use_align,
+                    flags: Flags::default(),
+                    singleton: None,
+                    impl_funcs: vec![],
+                    semicolon_form: false,
+                },
+                csize: size,
+                calign: 1,
+                vslots: None,
+            });
+        }
+    }
+
     // Extern values.
     if cfg.extern_values {
         for m in 0..cfg.modules {
